@@ -39,8 +39,11 @@ func runCase(c *tarcase.FSCase, tmp string, st *stats) (term string, ok bool) {
 	}
 	tree, err := tarcase.ReadBack(b.FS, ".", b.Links)
 	if err != nil {
-		fmt.Fprintf(os.Stderr, "c06: case %s: read-back failed: %v\n", c.Name, err)
-		os.Exit(3)
+		// the filesystem the case built cannot be listed and read back through its own
+		// ReadDir/Stat (a listing that names entries which do not exist): nothing can
+		// be serialised faithfully from it; the case is the failing input
+		tarcase.ImplViolation("fs-listing-inconsistent", map[string]any{"case": c, "err": err.Error()})
+		return "", false
 	}
 	ctx := context.Background()
 	files, err := build.VerifC06WalkFS(ctx, b.FS)
@@ -292,7 +295,15 @@ func main() {
 	seed := flag.Uint64("seed", 1, "seed")
 	tier := flag.String("tier", "quick", "tier")
 	_ = flag.String("replay", "", "unused: cases are regenerated from the seed")
+	stage := flag.String("stage", "layers", "layers|layerfile")
 	flag.Parse()
+	if *stage == "layerfile" {
+		if err := layerfileStage(*seed, *tier); err != nil {
+			fmt.Fprintln(os.Stderr, "c06:", err)
+			os.Exit(2)
+		}
+		return
+	}
 	tmp, err := os.MkdirTemp("", "c06-")
 	if err != nil {
 		fmt.Fprintln(os.Stderr, err)
